@@ -29,6 +29,8 @@ ShapeOf(n) ==
     [] n = "c1" -> [inst |-> 5, tk |-> "num", rk |-> "num", sk |-> "num", trs |-> 3, parsed |-> TRUE, lq |-> 2, pp |-> 3, g1 |-> "y", g2 |-> "p"]
     [] n = "p0a" -> [inst |-> 11, tk |-> "num", rk |-> "num", sk |-> "num", trs |-> 1, parsed |-> TRUE, lq |-> 3, pp |-> 4, g1 |-> "x", g2 |-> "p"]
     [] n = "p0b" -> [inst |-> 12, tk |-> "num", rk |-> "num", sk |-> "num", trs |-> 1, parsed |-> TRUE, lq |-> 3, pp |-> 5, g1 |-> "x", g2 |-> "p"]
+    \* (township, range and section number 0: defined numbers, not errors)
+    [] n = "z0" -> [inst |-> 13, tk |-> "num", rk |-> "num", sk |-> "num", trs |-> 9, parsed |-> TRUE, lq |-> 1, pp |-> 1, g1 |-> "v", g2 |-> "t"]
     [] n = "eT" -> [inst |-> 6, tk |-> "err", rk |-> "num", sk |-> "num", trs |-> 4, parsed |-> FALSE, lq |-> 0, pp |-> 1, g1 |-> "z", g2 |-> "p"]
     [] n = "eS" -> [inst |-> 7, tk |-> "num", rk |-> "num", sk |-> "err", trs |-> 5, parsed |-> TRUE, lq |-> 1, pp |-> 1, g1 |-> "x", g2 |-> "r"]
     [] n = "uS" -> [inst |-> 8, tk |-> "num", rk |-> "num", sk |-> "undef", trs |-> 6, parsed |-> FALSE, lq |-> 0, pp |-> 1, g1 |-> "x", g2 |-> "s"]
